@@ -118,11 +118,15 @@ def run_check(pid, tier, seed):
     tie_state = None
     if spec.get("tie"):
         import tie
-        tie_state = tie.check(spec["tie"])
-        if tie_state["status"] not in ("holds", "holds-rechecked"):
-            print("note: translation tie `%s` is %s (%s) - the correspondence tie decides; larger budget" % (
-                spec["tie"], tie_state["status"],
-                tie_state.get("reason") or ", ".join(sorted(tie_state.get("modules_no_longer_checking", {})))))
+        ties = spec["tie"] if isinstance(spec["tie"], list) else [spec["tie"]]
+        tie_state = []
+        for tname in ties:
+            tname, fns = (tname, None) if isinstance(tname, str) else tname
+            st = tie.check(tname, fns)
+            tie_state.append(st)
+            if st["status"] not in ("holds", "holds-rechecked"):
+                print("note: translation tie `%s` is %s (%s) - the correspondence tie decides; larger budget" % (
+                    tname, st["status"], st.get("reason") or ", ".join(sorted(st.get("modules_no_longer_checking", {})))))
     # change-directed effort: a modelled function that differs from the validated version gets the
     # thorough generator budget even in the quick tier (steers effort only, never a verdict)
     import fingerprint
